@@ -187,7 +187,8 @@ def run(workers, flt):
             except Exception: pass
     todo = [m for m in muts if m["id"] not in done]
     print(len(todo), "to run,", len(done), "done")
-    ws = [setup_worker(k) for k in range(workers)]
+    off = int(os.environ.get("MUT_OFFSET", "0"))
+    ws = [setup_worker(off + k) for k in range(workers)]
     # mutants of one file go to one worker in sequence (incremental builds stay warm); files are spread over workers
     import queue
     q = queue.Queue()
